@@ -39,7 +39,7 @@ def _worker(mod, master_seed, widx, nworkers, nruns, deadline, wall_timeout, kee
     agg = {
         "runs": 0, "ok": 0, "violation": 0, "inconclusive": 0, "harness": 0, "steps": 0, "switches": 0,
         "probes": {}, "modes": {}, "strategies": {}, "verdict_sigs": {}, "keys": [], "violations": {}, "harness_samples": [],
-        "samples": [], "notes": {}, "first_k_skipped": None,
+        "samples": [], "notes": {}, "first_k_skipped": None, "fps": {},
     }  # fmt: skip
     k = widx
     gen_case = getattr(mod, "gen_case", None)
@@ -55,6 +55,8 @@ def _worker(mod, master_seed, widx, nworkers, nruns, deadline, wall_timeout, kee
             spec = mod.gen_run(rs)
         res = bootstrap.run_in_fork(mod.execute, spec, wall_timeout)
         agg["runs"] += 1
+        if k < FP_K:
+            agg["fps"][str(k)] = _fingerprint(res)
         if "harness" in res:
             agg["harness"] += 1
             if len(agg["harness_samples"]) < 3:
@@ -94,6 +96,16 @@ def _worker(mod, master_seed, widx, nworkers, nruns, deadline, wall_timeout, kee
     data = json.dumps(agg).encode()
     with os.fdopen(out_fd, "wb") as f:
         f.write(data)
+
+
+FP_K = 32  # the first FP_K cases of every batch are fingerprinted and re-run for the built-in determinism re-check
+
+
+def _fingerprint(res):
+    if isinstance(res.get("probes"), dict) and any(k.startswith("rss_") for k in res["probes"]):
+        res = dict(res)
+        res["probes"] = {k: v for k, v in res["probes"].items() if not k.startswith("rss_")}  # OS memory accounting is not replayable
+    return hashlib.sha256(json.dumps(res, sort_keys=True, default=str).encode()).hexdigest()[:16]
 
 
 def _slim(res):
@@ -176,6 +188,7 @@ def _merge(a, b):
         for kk, vv in b[k].items():
             a[k][kk] = a[k].get(kk, 0) + vv
     a["keys"].extend(b["keys"])
+    a["fps"].update(b["fps"])
     for sig, lst in b["violations"].items():
         a["violations"].setdefault(sig, []).extend(lst)
     a["harness_samples"].extend(b["harness_samples"])
@@ -383,6 +396,19 @@ def check_property(mod, tier, master_seed, nruns, nworkers, time_budget, level, 
         lines.append(f"  run_seed={first['run_seed']} replay-reproduced={reproduced} same-trace-digest={same_digest} minimised={mini_info}")  # fmt: skip
         viol_reports.append({"signature": sig, "replay": path, "count_in_sample": len(lst), "minimised": mini_info})
         exit_code = max(exit_code, 1)
+    # built-in determinism re-check: the first FP_K cases again, on a different number of workers
+    recheck = {"cases": 0, "divergent": []}
+    if agg.get("fps"):
+        k2 = min(FP_K, nruns)
+        agg2 = run_batch(mod, master_seed, k2, 5 if nworkers != 5 else 3, None, wall_timeout)
+        for kk, fp in agg2.get("fps", {}).items():
+            if kk in agg["fps"]:
+                recheck["cases"] += 1
+                if agg["fps"][kk] != fp:
+                    recheck["divergent"].append(int(kk))
+        if recheck["divergent"]:
+            print(f"HARNESS-ERROR: nondeterminism: cases {recheck['divergent'][:8]} gave different executions when re-run", file=sys.stderr)  # fmt: skip
+            exit_code = 2
     wall = time.monotonic() - t0
     keys = set(agg.get("keys", []))
     cov = {
@@ -403,6 +429,7 @@ def check_property(mod, tier, master_seed, nruns, nworkers, time_budget, level, 
         "violation_reports": viol_reports,
         "known_findings_seen": [ln for ln in lines if ln.startswith("KNOWN-FINDING")],
         "time_budget_cut_at_run": agg.get("first_k_skipped"),
+        "determinism_recheck": recheck,
         "workers": nworkers,
         "real_vs_stub": {
             "real": "all of pyoda_time from the working tree, ICU, CPython threads and thread-local storage, the two tz database files",
